@@ -277,6 +277,42 @@ def h_write(ctx, kind, named):
                   ctx.all([delta >= -500, delta <= 500]))
 
 
+class SeasonTz(datetime.tzinfo):
+    """a zone whose offset and name depend on the date (as zoneinfo / dateutil zones do): one tzinfo object, two offsets"""
+
+    def utcoffset(self, dt):
+        if dt is None:
+            return datetime.timedelta(minutes=-300)
+        return datetime.timedelta(minutes=-240) if (dt.month >= 4 and dt.month <= 10) else datetime.timedelta(minutes=-300)
+
+    def tzname(self, dt):
+        if dt is None:
+            return "EST"
+        return "EDT" if (dt.month >= 4 and dt.month <= 10) else "EST"
+
+    def dst(self, dt):
+        return None
+
+
+def h_write_season(ctx):
+    """two values sharing one date-dependent tzinfo object are written one after the other: each text carries its own offset"""
+    tz = SeasonTz()
+    conv = Types.DateTime()
+    for k in range(2):
+        v = datetime.datetime(2021, ctx.int(f"month{k}", 1, 12), ctx.int(f"day{k}", 1, 28), 12, 30, 15, 250000, tzinfo=tz)
+        text = conv.unconvert(v)
+        ctx.observe(f"text{k}", text)
+        ok, F, offmin, name = ref_parse_written(ctx, text, "dt")
+        summer = ctx.all([v.month >= 4, v.month <= 10])
+        ctx.check("written text has the form [YYYYMMDD]HHMMSS.XXX[(+|-)h[.mm][:name]]", ok)
+        if summer:
+            want_off, want_name = -240, "EDT"
+        else:
+            want_off, want_name = -300, "EST"
+        ctx.check("written offset is the zone's offset at that date", offmin == want_off)
+        ctx.check("written zone name is the zone's name at that date", name == want_name)
+
+
 def h_write_naive(ctx, kind):
     if kind == "dt":
         v = ctx.datetime("v", 1900, 2200, None)
@@ -330,7 +366,7 @@ def h_gmt_offset(ctx):
     ctx.check("gmt_offset(hours, minutes) is sign(hours) * (|hours|:minutes)", td // datetime.timedelta(minutes=1) == want)
 
 
-HARNESSES = dict(read=h_read, reject_range=h_reject_range, reject_edit=h_reject_edit, write=h_write,
+HARNESSES = dict(write_season=h_write_season, read=h_read, reject_range=h_reject_range, reject_edit=h_reject_edit, write=h_write,
                  write_naive=h_write_naive, roundtrip=h_roundtrip, gmt_offset=h_gmt_offset)
 
 META = dict(
@@ -419,4 +455,5 @@ def instances(tier, seed):
         if tier != "quick":
             mk(f"roundtrip:{kind}", "roundtrip", dict(kind=kind, named=None), timeout_ms=60000, wall_s=1200)
     mk("gmt_offset", "gmt_offset", {})
+    mk("write_season", "write_season", {}, timeout_ms=30000)
     return out
